@@ -131,6 +131,7 @@ func normalizeOnce(fset *token.FileSet, pkgs []*packages.Package, known map[stri
 				self, _ := info.Defs[fd.Name].(*types.Func)
 				// statements that are the init/post/comm part of another statement cannot be expanded in place
 				part := map[ast.Stmt]bool{}
+				elseIfs := map[*ast.IfStmt]bool{}
 				ast.Inspect(fd.Body, func(n ast.Node) bool {
 					switch x := n.(type) {
 					case *ast.IfStmt:
@@ -140,6 +141,7 @@ func normalizeOnce(fset *token.FileSet, pkgs []*packages.Package, known map[stri
 						// an "else if" cannot be wrapped in a block of its own
 						if e, ok := x.Else.(*ast.IfStmt); ok {
 							part[e] = true
+							elseIfs[e] = true
 						}
 					case *ast.ForStmt:
 						if x.Init != nil {
@@ -172,6 +174,19 @@ func normalizeOnce(fset *token.FileSet, pkgs []*packages.Package, known map[stri
 						return true
 					}
 					if part[st] {
+						// an "else if" whose condition (or init) calls a candidate: it is given a block of its own
+						// first - else { if ... } - and expanded as an ordinary if in the next round
+						if eif, isIf := st.(*ast.IfStmt); isIf && elseIfs[eif] {
+							call, _ := siteOf(st, func(ce *ast.CallExpr) bool {
+								o := calleeOf(info, ce)
+								return o != nil && callees[o] != nil && o != self
+							})
+							if call != nil {
+								if cal := callees[calleeOf(info, call)]; cal != nil {
+									sites = append(sites, inlSite{stmt: st, call: call, callee: cal, kind: "elseif"})
+								}
+							}
+						}
 						return true
 					}
 					call, kind := siteOf(st, func(ce *ast.CallExpr) bool {
@@ -220,6 +235,48 @@ func normalizeOnce(fset *token.FileSet, pkgs []*packages.Package, known map[stri
 			}
 			var edits []edit
 			for _, s := range chosen {
+				if s.kind == "retsplit" {
+					rs := s.stmt.(*ast.ReturnStmt)
+					be := ast.Unparen(rs.Results[0]).(*ast.BinaryExpr)
+					a, b := tf.Offset(rs.Pos()), tf.Offset(rs.End())
+					x := string(src[tf.Offset(be.X.Pos()):tf.Offset(be.X.End())])
+					y := string(src[tf.Offset(be.Y.Pos()):tf.Offset(be.Y.End())])
+					var txt string
+					if be.Op == token.LOR {
+						txt = "if " + x + " { return true }; return " + y
+					} else {
+						txt = "if !(" + x + ") { return false }; return " + y
+					}
+					edits = append(edits, edit{a, b, txt})
+					total++
+					continue
+				}
+				if s.kind == "ifsplit" {
+					is := s.stmt.(*ast.IfStmt)
+					a, b := tf.Offset(is.Pos()), tf.Offset(is.End())
+					ia, ib := tf.Offset(is.Init.Pos()), tf.Offset(is.Init.End())
+					ca := tf.Offset(is.Cond.Pos())
+					txt := "{ " + string(src[ia:ib]) + "; if " + string(src[ca:b]) + " }"
+					edits = append(edits, edit{a, b, txt})
+					total++
+					continue
+				}
+				if s.kind == "elseif" {
+					a, b := tf.Offset(s.stmt.Pos()), tf.Offset(s.stmt.End())
+					edits = append(edits, edit{b, b, " }"})
+					edits = append(edits, edit{a, a, "{ "})
+					total++
+					continue
+				}
+				if s.kind == "forcond" {
+					fs := s.stmt.(*ast.ForStmt)
+					a, b := tf.Offset(fs.Cond.Pos()), tf.Offset(fs.Cond.End())
+					at := tf.Offset(fs.Body.Lbrace) + 1
+					edits = append(edits, edit{at, at, " if !(" + string(src[a:b]) + ") { break }; "})
+					edits = append(edits, edit{a, b, ""})
+					total++
+					continue
+				}
 				*counter++
 				body := enclosingBody(f, s.stmt.Pos())
 				if body == nil {
@@ -274,8 +331,27 @@ func inlinable(fd *ast.FuncDecl, obj *types.Func, info *types.Info) bool {
 					top = true
 				}
 			}
-			if !top || len(x.Call.Args) != 0 {
+			if !top {
 				ok = false
+			}
+			if len(x.Call.Args) != 0 {
+				// arguments are evaluated where the defer statement stands: supported for a plain function
+				// (defer freeBuffer(buf)), whose arguments are kept in temporaries
+				switch f := x.Call.Fun.(type) {
+				case *ast.Ident:
+				case *ast.SelectorExpr:
+					id, isId := f.X.(*ast.Ident)
+					if !isId {
+						ok = false
+					} else if _, isPkg := info.Uses[id].(*types.PkgName); !isPkg {
+						ok = false
+					}
+				default:
+					ok = false
+				}
+				if x.Call.Ellipsis.IsValid() {
+					ok = false
+				}
 			}
 		case *ast.BranchStmt:
 			if x.Tok == token.GOTO {
@@ -381,6 +457,14 @@ func siteOf(st ast.Stmt, isCand func(*ast.CallExpr) bool) (*ast.CallExpr, string
 		} else {
 			return nil, ""
 		}
+	case *ast.ForStmt:
+		// for f(x) { ... }: the condition is evaluated before every iteration; the site is rewritten to
+		// for { if !(f(x)) { break }; ... } (same order of evaluation, `continue` still re-evaluates it) and the
+		// call is expanded in the next round as the condition of that if
+		if s.Cond == nil {
+			return nil, ""
+		}
+		exprs, kind = []ast.Expr{s.Cond}, "forcond"
 	case *ast.SendStmt:
 		if !pureOperand(s.Chan) {
 			return nil, ""
@@ -389,6 +473,32 @@ func siteOf(st ast.Stmt, isCand func(*ast.CallExpr) bool) (*ast.CallExpr, string
 	default:
 		return nil, ""
 	}
+	stmtKind := kind
+	first, kind := firstCandidate(exprs, kind, isCand)
+	if first == nil {
+		kind = stmtKind
+		// if x := g(); f(x) { ... } with a candidate only in the condition: the statement is first rewritten to
+		// { x := g(); if f(x) { ... } } (same order of evaluation, same scope for the bodies)
+		if s, ok := st.(*ast.IfStmt); ok && s.Init != nil && kind == "ifinit" {
+			if c, _ := firstCandidate([]ast.Expr{s.Cond}, "ifsplit", isCand); c != nil {
+				return c, "ifsplit"
+			}
+		}
+		// return a || f(x)  ->  if a { return true }; return f(x)      (and the dual for &&)
+		if s, ok := st.(*ast.ReturnStmt); ok && len(s.Results) == 1 {
+			if be, ok := ast.Unparen(s.Results[0]).(*ast.BinaryExpr); ok && (be.Op == token.LOR || be.Op == token.LAND) {
+				if c, _ := firstCandidate([]ast.Expr{be.Y}, "retsplit", isCand); c != nil {
+					return c, "retsplit"
+				}
+			}
+		}
+		return nil, ""
+	}
+	return first, kind
+}
+
+// firstCandidate: the lexically first call of exprs that is evaluated unconditionally, if it is a candidate.
+func firstCandidate(exprs []ast.Expr, kind string, isCand func(*ast.CallExpr) bool) (*ast.CallExpr, string) {
 	var first *ast.CallExpr
 	stop := false
 	var visit func(e ast.Expr, cond bool)
@@ -656,20 +766,34 @@ func expandSite(fset *token.FileSet, pk *packages.Package, tf *token.File, src [
 	}
 	var reps []rep
 	var defers []*ast.DeferStmt
-	for _, st := range body.List {
+	deferText := map[*ast.DeferStmt]string{}
+	for di, st := range body.List {
 		if d, ok := st.(*ast.DeferStmt); ok {
-			if len(d.Call.Args) != 0 {
-				return "", "", false
-			}
 			defers = append(defers, d)
-			reps = append(reps, rep{ctf.Offset(d.Pos()) - bstart, ctf.Offset(d.End()) - bstart, ""})
+			at := ""
+			call := ctext(d.Call)
+			if len(d.Call.Args) != 0 {
+				// keep the arguments as they are where the defer statement stands
+				var tmps, vals []string
+				for ai, a := range d.Call.Args {
+					tmps = append(tmps, fmt.Sprintf("d%d_%d%s", di, ai, sfx))
+					vals = append(vals, ctext(a))
+				}
+				at = strings.Join(tmps, ", ") + " := " + strings.Join(vals, ", ") + "; _ = " + tmps[0]
+				for _, t := range tmps[1:] {
+					at += "; _ = " + t
+				}
+				call = ctext(d.Call.Fun) + "(" + strings.Join(tmps, ", ") + ")"
+			}
+			deferText[d] = call
+			reps = append(reps, rep{ctf.Offset(d.Pos()) - bstart, ctf.Offset(d.End()) - bstart, at})
 		}
 	}
 	deferredAt := func(pos token.Pos) string {
 		var sb strings.Builder
 		for i := len(defers) - 1; i >= 0; i-- {
 			if defers[i].End() <= pos {
-				sb.WriteString(ctext(defers[i].Call) + "; ")
+				sb.WriteString(deferText[defers[i]] + "; ")
 			}
 		}
 		return sb.String()
